@@ -1579,6 +1579,22 @@ fn gen_c19(ctx: &mut Ctx) {
         let res3 = ctx.case(line3.clone(), true, "vsign-derives-size");
         let want_pages = format!("# {}.{}.{}", w, h, hex_of_bytes(&page));
         ctx.monitor(res3.ends_with(&want_pages) && res3.contains(&format!("RS.7.PRX/PRX.{}.1.", i)), "C19-vsign-derives", &line3, "");
+        // ... and still after a pixel transfer that failed (one chunk lost, count as announced) and is simply repeated, as
+        // the controller does, without configuring again: what the block said about the size stays in force
+        let chunks: Vec<String> = page.chunks(16).enumerate().map(|(k, c)| format!("SD.{}.{}", k * 16, hex_of_bytes(c))).collect();
+        for lost in [chunks.len() - 1, 0, chunks.len() / 2] {
+            let mut msgs = vec!["RO.7.RCF".to_string(), format!("SD.0.{}", p[0]), "DC.1".to_string(), "RO.7.RPX".to_string()];
+            msgs.extend(chunks.iter().enumerate().filter(|(k, _)| *k != lost).map(|(_, c)| c.clone()));
+            msgs.push(format!("DC.{}", n));
+            msgs.push("QS.7".to_string());
+            msgs.push("RO.7.RPX".to_string());
+            msgs.extend(chunks.iter().cloned());
+            msgs.push(format!("DC.{}", n));
+            msgs.push("QS.7".to_string());
+            let line4 = format!("VS 7 M {}", msgs.join(" "));
+            let res4 = ctx.case(line4.clone(), true, "vsign-derives-size-after-failed-transfer");
+            ctx.monitor(res4.ends_with(&want_pages) && res4.contains(&format!("RS.7.PRX/PRX.{}.1.", i)) && res4.contains("RS.7.PFL/PFL."), "C19-vsign-derives", &line4, "");
+        }
     }
     // all 65536 (family, id) pairs, remaining 14 bytes varied
     let fillers = if ctx.tier_thorough { 8 } else { 1 };
